@@ -364,7 +364,8 @@ fn fn_arg(r: &mut Sm, id: &str, name: &str, ty: &str) -> Arg {
                 1 => 1,
                 2 => 170,
                 3 => 171,
-                4 => r.below(1_000_000),
+                // a length argument of a sequence generator: the reply carries that many values
+                4 => r.below(if module == "generate" { 5_000 } else { 1_000_000 }),
                 _ => r.below(200),
             };
             Arg::I(x as i128)
